@@ -15,6 +15,11 @@
   (units C/F/K; formulas as in datatype/temperature.py).  Values/datetimes of aggregations, validation and
   interpolation are *payload* (taken from the implementation): C03/C13 own those computations, C14 only
   models which cells the result is made of.  No Mathlib.
+
+  Round 2: metadata values are tokens or references to nested list cells (`deepcopy` allocates new ones);
+  plain Python lists that a caller passes as arguments are heap objects of their own (`Cell.vals _ false`
+  as a live object, `Cell.args` for the list handed to `compute_function_aligned`); the area / time
+  normalisations are deriving operations; Wea and EPW are composite objects (see the end of the file).
 -/
 import Ladybug.Py
 
@@ -25,7 +30,7 @@ abbrev Ref := Nat
 inductive Cls | hd | hc | daily | monthly | mph
 deriving DecidableEq, Repr, Inhabited
 
-inductive Err | attr | assert | value | index | zero | type
+inductive Err | attr | assert | value | index | zero | type | key
 deriving DecidableEq, Repr, Inhabited
 
 inductive Mode | pinned | fixed
@@ -33,6 +38,17 @@ deriving DecidableEq, Repr, Inhabited
 
 /-- Metadata values are opaque tokens (the harness renders ints / strings / nested lists as text). -/
 abbrev MV := String
+
+/-- A metadata value: an opaque token, or a reference to a nested Python list (`Cell.mlist`). -/
+inductive MVal | tok (s : MV) | lst (r : Ref)
+deriving DecidableEq, Repr, Inhabited
+
+/-- A metadata value as the API reports it. -/
+inductive OV | tok (s : MV) | lst (l : List MV) | bad
+deriving DecidableEq, Repr, Inhabited
+
+inductive Operand | scalar (x : Rat) | coll (r : Ref)
+deriving DecidableEq, Repr
 
 structure Hdr where
   dtype : Nat
@@ -53,12 +69,26 @@ structure Coll where
   dtsList : Bool := false
 deriving DecidableEq, Repr, Inhabited
 
+/-- A composite object (Wea, EPW): some tags, an own metadata dict, cells it only reads (the Location
+    of a Wea) and member collections. -/
+structure Comp where
+  kind : Nat
+  tags : List Nat
+  md : Ref
+  shared : List Ref
+  members : List Ref
+deriving DecidableEq, Repr, Inhabited
+
 inductive Cell
   | hdr (x : Hdr)
-  | md (m : List (Nat × MV))
+  | md (m : List (Nat × MVal))
+  | mlist (l : List MV)
   | vals (v : List Rat) (tuple : Bool)
   | ap (a : List Nat)
   | coll (c : Coll)
+  | args (l : List Operand)
+  | loc (t : List MV)
+  | comp (c : Comp)
 deriving DecidableEq, Repr, Inhabited
 
 /-- The heap: `cells r = none` for every `r ≥ next` (see `WF`). -/
@@ -86,12 +116,12 @@ structure Obs where
   dtype : Nat
   unit : Nat
   ap : List Nat
-  md : List (Nat × MV)
+  md : List (Nat × OV)
   dts : List Nat
   vals : List Rat
 deriving DecidableEq, Repr, Inhabited
 
-/-- The cells a collection is made of. -/
+/-- The cells a collection is made of (`nested`: the list cells its metadata dict refers to). -/
 structure Foot where
   coll : Ref
   hdr : Ref
@@ -99,13 +129,24 @@ structure Foot where
   ap : Ref
   vals : Ref
   isMut : Bool
+  nested : List Ref
 deriving DecidableEq, Repr, Inhabited
+
+/-- The nested list cells of a metadata dict. -/
+def mdRefs (m : List (Nat × MVal)) : List Ref :=
+  m.filterMap fun p => match p.2 with | .lst r => some r | .tok _ => none
+
+/-- The metadata as the API reports it (nested lists read through). -/
+def obsMeta (cells : Ref → Option Cell) (m : List (Nat × MVal)) : List (Nat × OV) :=
+  m.map fun p => (p.1, match p.2 with
+    | .tok s => OV.tok s
+    | .lst r => match cells r with | some (.mlist l) => OV.lst l | _ => OV.bad)
 
 def getColl (h : Heap) (c : Ref) : Option Coll :=
   match h.cells c with | some (.coll k) => some k | _ => none
 def getHdr (h : Heap) (r : Ref) : Option Hdr :=
   match h.cells r with | some (.hdr x) => some x | _ => none
-def getMeta (h : Heap) (r : Ref) : Option (List (Nat × MV)) :=
+def getMeta (h : Heap) (r : Ref) : Option (List (Nat × MVal)) :=
   match h.cells r with | some (.md m) => some m | _ => none
 def getAP (h : Heap) (r : Ref) : Option (List Nat) :=
   match h.cells r with | some (.ap a) => some a | _ => none
@@ -118,7 +159,10 @@ def foot (h : Heap) (c : Ref) : Option Foot :=
   | some k =>
     match getHdr h k.hdr with
     | none => none
-    | some hd => some ⟨c, k.hdr, hd.md, hd.ap, k.vals, k.isMut⟩
+    | some hd =>
+      match getMeta h hd.md with
+      | none => none
+      | some m => some ⟨c, k.hdr, hd.md, hd.ap, k.vals, k.isMut, mdRefs m⟩
 
 def obs (h : Heap) (c : Ref) : Option Obs :=
   match getColl h c with
@@ -129,13 +173,20 @@ def obs (h : Heap) (c : Ref) : Option Obs :=
     | some hd =>
       match getMeta h hd.md, getAP h hd.ap, getVals h k.vals with
       | some m, some a, some (v, _) =>
-        some ⟨k.cls, k.isMut, k.validated, hd.dtype, hd.unit, a, m, k.dts, v⟩
+        some ⟨k.cls, k.isMut, k.validated, hd.dtype, hd.unit, a, obsMeta h.cells m, k.dts, v⟩
       | _, _, _ => none
 
 /-! ### Value level (Temperature only) -/
 
-/-- Units of Temperature: 0 = C, 1 = F, 2 = K.  Anything else is not acceptable (`ValueError`). -/
-def unitOk (dtype u : Nat) : Bool := dtype = 0 && u ≤ 2
+/-- Data types: 0 Temperature, 1 Energy, 2 EnergyIntensity, 3 Power, 4 EnergyFlux.
+    Units: 0 C, 1 F, 2 K (Temperature); 4 kWh, 5 kWh/m2, 6 W, 7 W/m2 (the base units of the other four).
+    Anything else is not acceptable (`ValueError`).  Unit *conversion* is modelled for Temperature only. -/
+def unitOk (dtype u : Nat) : Bool :=
+  (dtype = 0 && u ≤ 2) || (dtype = 1 && u = 4) || (dtype = 2 && u = 5) || (dtype = 3 && u = 6) ||
+  (dtype = 4 && u = 7)
+
+/-- Can the model convert between units of this data type? -/
+def convOk (dtype : Nat) : Bool := dtype = 0
 
 def toC (u : Nat) (v : Rat) : Rat :=
   if u = 1 then (v - 32) * 5 / 9 else if u = 2 then v - (273.15 : Rat) else v
@@ -154,14 +205,16 @@ def isHourly : Cls → Bool
   | _ => false
 
 /-- `dict[k] = v` keeping insertion order. -/
-def metaSet (m : List (Nat × MV)) (k : Nat) (v : MV) : List (Nat × MV) :=
+def metaSet {α : Type} (m : List (Nat × α)) (k : Nat) (v : α) : List (Nat × α) :=
   if m.any (·.1 = k) then m.map fun p => if p.1 = k then (k, v) else p else m ++ [(k, v)]
 
 /-! ### Allocation of a derived collection -/
 
 inductive ApSrc | share (r : Ref) | new (a : List Nat)
 deriving Repr
-inductive MetaSrc | share (r : Ref) | new (m : List (Nat × MV))
+/-- The metadata dict of a new header: the source's dict itself, a deep copy of observed content (every
+    nested list is a new cell), or a shallow copy (new dict, the same nested lists). -/
+inductive MetaSrc | share (r : Ref) | new (m : List (Nat × OV)) | shallow (m : List (Nat × MVal))
 deriving Repr
 inductive ValSrc | share (r : Ref) | new (v : List Rat) (tuple : Bool)
 deriving Repr
@@ -183,24 +236,40 @@ deriving Repr
 def allocAp (h : Heap) : ApSrc → Heap × Ref
   | .share r => (h, r)
   | .new a => h.alloc (.ap a)
+/-- `deepcopy(metadata)`: a new list cell for every nested list. -/
+def allocMd (h : Heap) : List (Nat × OV) → Heap × List (Nat × MVal)
+  | [] => (h, [])
+  | (k, .lst l) :: rest =>
+    let p := allocMd (h.alloc (.mlist l)).1 rest
+    (p.1, (k, .lst (h.alloc (.mlist l)).2) :: p.2)
+  | (k, .tok s) :: rest =>
+    let p := allocMd h rest
+    (p.1, (k, .tok s) :: p.2)
+  | (k, .bad) :: rest =>
+    let p := allocMd h rest
+    (p.1, (k, .tok "?") :: p.2)
+
 def allocMeta (h : Heap) : MetaSrc → Heap × Ref
   | .share r => (h, r)
-  | .new m => h.alloc (.md m)
+  | .new m =>
+    let p := allocMd h m
+    p.1.alloc (.md p.2)
+  | .shallow m => h.alloc (.md m)
 def allocVals (h : Heap) : ValSrc → Heap × Ref
   | .share r => (h, r)
   | .new v t => h.alloc (.vals v t)
 def allocHdr (h : Heap) : HdrSrc → Heap × Ref
   | .share r => (h, r)
   | .new dt u ap m =>
-    let (h1, ra) := allocAp h ap
-    let (h2, rm) := allocMeta h1 m
-    h2.alloc (.hdr ⟨dt, u, ra, rm⟩)
+    let pa := allocAp h ap
+    let pm := allocMeta pa.1 m
+    pm.1.alloc (.hdr ⟨dt, u, pa.2, pm.2⟩)
 
 /-- Build the object graph of a new collection. -/
 def mkColl (h : Heap) (s : NewSpec) : Heap × Ref :=
-  let (h1, rh) := allocHdr h s.hdr
-  let (h2, rv) := allocVals h1 s.vals
-  h2.alloc (.coll ⟨rh, rv, s.dts, s.isMut, s.cls, s.validated, false⟩)
+  let ph := allocHdr h s.hdr
+  let pv := allocVals ph.1 s.vals
+  pv.1.alloc (.coll ⟨ph.2, pv.2, s.dts, s.isMut, s.cls, s.validated, false⟩)
 
 /-- A spec that copies: new header, new metadata dict, and values that are a new list/tuple or an
     existing *tuple* cell (tuples cannot be edited).  The analysis period may be shared (no setters). -/
@@ -215,7 +284,10 @@ def NewSpec.Copying (h : Heap) (s : NewSpec) : Prop :=
 structure Src where
   k : Coll
   hd : Hdr
-  md : List (Nat × MV)
+  /-- the metadata dict as stored (values are tokens or references) -/
+  rmd : List (Nat × MVal)
+  /-- the metadata as observed (nested lists read through) -/
+  md : List (Nat × OV)
   ap : List Nat
   vals : List Rat
   tuple : Bool
@@ -229,15 +301,15 @@ def src (h : Heap) (c : Ref) : Except Err Src :=
     | none => .error .type
     | some hd =>
       match getMeta h hd.md, getAP h hd.ap, getVals h k.vals with
-      | some m, some a, some (v, t) => .ok ⟨k, hd, m, a, v, t⟩
+      | some m, some a, some (v, t) => .ok ⟨k, hd, m, obsMeta h.cells m, a, v, t⟩
       | _, _, _ => .error .type
 
 /-- `Header.duplicate()`: new Header, `analysis_period.duplicate()`, `deepcopy(metadata)`;
     optionally with another unit / period / an extra metadata key (edits the code applies to the copy). -/
 def dupHdr (s : Src) (unit : Option Nat := none) (ap : Option (List Nat) := none)
-    (extra : Option (Nat × MV) := none) : HdrSrc :=
-  .new s.hd.dtype (unit.getD s.hd.unit) (.new (ap.getD s.ap))
-    (.new (match extra with | none => s.md | some (k, v) => metaSet s.md k v))
+    (extra : Option (Nat × MV) := none) (dtype : Option Nat := none) : HdrSrc :=
+  .new (dtype.getD s.hd.dtype) (unit.getD s.hd.unit) (.new (ap.getD s.ap))
+    (.new (match extra with | none => s.md | some (k, v) => metaSet s.md k (.tok v)))
 
 /-- Header of an operator result / `to_immutable` / `to_mutable`: pinned code passes `self.header`. -/
 def hdrOrShare (m : Mode) (pinnedShares : Bool) (s : Src) : HdrSrc :=
@@ -261,8 +333,6 @@ def checkVals (cls : Cls) (dts : List Nat) (n : Nat) : Bool :=
 
 /-! ### Deriving operations -/
 
-inductive Operand | scalar (x : Rat) | coll (r : Ref)
-deriving Repr
 inductive BinOp | add | sub | mul | div
 deriving DecidableEq, Repr
 
@@ -276,7 +346,8 @@ def zipW (f : Rat → Rat → Rat) : List Rat → List Rat → List Rat
   | a :: as, b :: bs => f a b :: zipW f as bs
   | _, _ => []
 
-inductive AlignVal | scalar (x : Rat) | list (v : List Rat)
+/-- `value` of `get_aligned_collection`: a number, a list literal, or a list object the caller holds. -/
+inductive AlignVal | scalar (x : Rat) | list (v : List Rat) | listRef (r : Ref)
 deriving Repr
 
 /-- Interval of an aggregation (`_time_interval_operation` / `_monthly_operation`). -/
@@ -307,6 +378,12 @@ inductive DOp
   | interpHoles (dts : List Nat) (vals : List Rat)
   | interpTs (ts : Nat) (dts : List Nat) (vals : List Rat)
   | cfa (x : Operand) (unit : Nat)
+  /-- `compute_function_aligned` with the caller's own list object `[self, x]` (a `Cell.args`) -/
+  | cfaRef (args : Ref) (unit : Nat)
+  | normalize (area : Rat) (newType : MV)
+  | aggregateArea (area : Rat) (newType : MV)
+  | timeAgg
+  | timeRate
 deriving Repr
 
 def keep {α : Type} (l : List α) (sel : Nat → Bool) : List α :=
@@ -338,6 +415,41 @@ def filtered (s : Src) (sel : Nat → Bool) (keysFilter : Bool) (ap : Option (Li
 
 /-- The key used by the model for the metadata entry `'operation'`. -/
 def opKey : Nat := 0
+
+/-- The key used by the model for the metadata entry `'type'`. -/
+def typeKey : Nat := 4
+
+/-- The `timestep` of `to_time_aggregated` / `to_time_rate_of_change`: steps per hour of an hourly
+    collection, 1/24 for a daily one; the other classes do not have these methods. -/
+def stepsPerHour (s : Src) : Option Rat :=
+  if isHourly s.k.cls then some (apTs s.ap : Rat)
+  else if s.k.cls = .daily then some ((1 : Rat) / 24) else none
+
+/-- compute_function_aligned(lambda a, b: a + b, [self, x], Temperature(), unit) -/
+def cfaSpec (m : Mode) (h : Heap) (s : Src) (x : Operand) (unit : Nat) : Except Err NewSpec :=
+  if ¬ unitOk 0 unit then .error .value
+  else do
+    let vals ← match x with
+      | .scalar q => pure (s.vals.map fun v => v + q)
+      | .coll r => do
+        let o ← src h r
+        if s.k.cls ≠ o.k.cls ∨ s.vals.length ≠ o.vals.length ∨
+            (if s.k.cls = .hc then s.ap ≠ o.ap else (s.k.dts ≠ o.k.dts ∨ s.k.dtsList ≠ o.k.dtsList)) then
+          .error .value
+        else pure (zipW (· + ·) s.vals o.vals)
+    let vd := if s.k.cls = .hc then true else s.k.validated
+    if s.k.isMut then
+      let md : MetaSrc :=
+        if m = .pinned ∧ ¬ s.md.isEmpty then .share s.hd.md else .new s.md
+      pure ⟨.new 0 unit (.share s.hd.ap) md, newVals true vals, s.k.dts, true, s.k.cls, vd⟩
+    else
+      -- aligned collection is immutable -> `.to_mutable()`: pinned shares that new header (whose
+      -- metadata is the source's dict), fixed duplicates it (new period object as well)
+      if m = .pinned then
+        let md : MetaSrc := if ¬ s.md.isEmpty then .share s.hd.md else .new s.md
+        pure ⟨.new 0 unit (.share s.hd.ap) md, newVals true vals, s.k.dts, true, s.k.cls, vd⟩
+      else
+        pure ⟨.new 0 unit (.new s.ap) (.new s.md), newVals true vals, s.k.dts, true, s.k.cls, vd⟩
 
 /-- The spec (what is allocated, what is aliased) of each deriving operation on collection `c`. -/
 def specOf (m : Mode) (h : Heap) (c : Ref) (op : DOp) : Except Err NewSpec := do
@@ -381,16 +493,19 @@ def specOf (m : Mode) (h : Heap) (c : Ref) (op : DOp) : Except Err NewSpec := do
     if s.k.cls ≠ .hc then .error .attr
     else pure ⟨dupHdr s, newVals true s.vals, s.k.dts, true, .hd, true⟩
   | .toUnit u =>
-    if ¬ unitOk s.hd.dtype u ∨ ¬ unitOk s.hd.dtype s.hd.unit then .error .value
+    if ¬ convOk s.hd.dtype then .error .type
+    else if ¬ unitOk s.hd.dtype u ∨ ¬ unitOk s.hd.dtype s.hd.unit then .error .value
     else pure ⟨dupHdr s (some u), newVals s.k.isMut (convVals s.hd.unit u s.vals), s.k.dts, s.k.isMut, s.k.cls,
                if s.k.cls = .hc then true else s.k.validated⟩
   | .toIp =>
-    if ¬ unitOk s.hd.dtype s.hd.unit then .error .value
+    if ¬ convOk s.hd.dtype then .error .type
+    else if ¬ unitOk s.hd.dtype s.hd.unit then .error .value
     else pure ⟨dupHdr s (some (ipUnit s.hd.unit)),
                newVals s.k.isMut (convVals s.hd.unit (ipUnit s.hd.unit) s.vals), s.k.dts, s.k.isMut, s.k.cls,
                if s.k.cls = .hc then true else s.k.validated⟩
   | .toSi =>
-    if ¬ unitOk s.hd.dtype s.hd.unit then .error .value
+    if ¬ convOk s.hd.dtype then .error .type
+    else if ¬ unitOk s.hd.dtype s.hd.unit then .error .value
     else pure ⟨dupHdr s (some (siUnit s.hd.unit)),
                newVals s.k.isMut (convVals s.hd.unit (siUnit s.hd.unit) s.vals), s.k.dts, s.k.isMut, s.k.cls,
                if s.k.cls = .hc then true else s.k.validated⟩
@@ -402,6 +517,10 @@ def specOf (m : Mode) (h : Heap) (c : Ref) (op : DOp) : Except Err NewSpec := do
       let vals ← match v with
         | .scalar q => pure (List.replicate s.vals.length q)
         | .list l => if l.length ≠ s.vals.length then .error .assert else pure l
+        | .listRef r =>
+          match getVals h r with
+          | some (l, _) => if l.length ≠ s.vals.length then .error .assert else pure l
+          | none => .error .type
       let mt := mutable.getD s.k.isMut
       -- pinned: the source's metadata dict itself unless it is empty (`value or {}`)
       let md : MetaSrc :=
@@ -454,30 +573,51 @@ def specOf (m : Mode) (h : Heap) (c : Ref) (op : DOp) : Except Err NewSpec := do
     if s.k.cls ≠ .hc then .error .attr
     else if ts % apTs s.ap ≠ 0 then .error .assert
     else pure ⟨dupHdr s none (some (apWithTs s.ap ts)), newVals true vals, dts, true, .hc, true⟩
-  | .cfa x unit =>
-    -- compute_function_aligned(lambda a, b: a + b, [self, x], Temperature(), unit)
-    if ¬ unitOk 0 unit then .error .value
-    else
-      let vals ← match x with
-        | .scalar q => pure (s.vals.map fun v => v + q)
-        | .coll r => do
-          let o ← src h r
-          if s.k.cls ≠ o.k.cls ∨ s.vals.length ≠ o.vals.length ∨
-              (if s.k.cls = .hc then s.ap ≠ o.ap else (s.k.dts ≠ o.k.dts ∨ s.k.dtsList ≠ o.k.dtsList)) then .error .value
-          else pure (zipW (· + ·) s.vals o.vals)
-      let vd := if s.k.cls = .hc then true else s.k.validated
-      if s.k.isMut then
-        let md : MetaSrc :=
-          if m = .pinned ∧ ¬ s.md.isEmpty then .share s.hd.md else .new s.md
-        pure ⟨.new 0 unit (.share s.hd.ap) md, newVals true vals, s.k.dts, true, s.k.cls, vd⟩
-      else
-        -- aligned collection is immutable -> `.to_mutable()`: pinned shares that new header (whose
-        -- metadata is the source's dict), fixed duplicates it (new period object as well)
-        if m = .pinned then
-          let md : MetaSrc := if ¬ s.md.isEmpty then .share s.hd.md else .new s.md
-          pure ⟨.new 0 unit (.share s.hd.ap) md, newVals true vals, s.k.dts, true, s.k.cls, vd⟩
-        else
-          pure ⟨.new 0 unit (.new s.ap) (.new s.md), newVals true vals, s.k.dts, true, s.k.cls, vd⟩
+  | .cfa x unit => cfaSpec m h s x unit
+  | .cfaRef args unit =>
+    -- the caller's list is only read (fixes/C14_compute_function_aligned_list.patch)
+    match h.cells args with
+    | some (.args [.coll r, x]) => if r = c then cfaSpec m h s x unit else .error .type
+    | _ => .error .type
+  | .normalize area newType =>
+    -- normalize_by_area: Energy -> EnergyIntensity, Power -> EnergyFlux
+    match (if s.hd.dtype = 1 then some (2, 5) else if s.hd.dtype = 3 then some (4, 7) else none) with
+    | none => .error .assert
+    | some (dt, u) =>
+      if area = 0 then .error .zero
+      else pure ⟨dupHdr s (some u) none (if s.md.any (·.1 = typeKey) then some (typeKey, newType) else none)
+                   (some dt),
+                 newVals s.k.isMut (s.vals.map fun v => v / area), s.k.dts, s.k.isMut, s.k.cls,
+                 if s.k.cls = .hc then true else s.k.validated⟩
+  | .aggregateArea area newType =>
+    match (if s.hd.dtype = 2 then some (1, 4) else if s.hd.dtype = 4 then some (3, 6) else none) with
+    | none => .error .value
+    | some (dt, u) =>
+      pure ⟨dupHdr s (some u) none (if s.md.any (·.1 = typeKey) then some (typeKey, newType) else none)
+              (some dt),
+            newVals s.k.isMut (s.vals.map fun v => v * area), s.k.dts, s.k.isMut, s.k.cls,
+            if s.k.cls = .hc then true else s.k.validated⟩
+  | .timeAgg =>
+    -- to_time_aggregated: Power -> Energy, EnergyFlux -> EnergyIntensity (factor 0.001 / timestep)
+    match stepsPerHour s with
+    | none => .error .attr
+    | some ts =>
+      match (if s.hd.dtype = 3 then some (1, 4) else if s.hd.dtype = 4 then some (2, 5) else none) with
+      | none => .error .assert
+      | some (dt, u) =>
+        pure ⟨dupHdr s (some u) none none (some dt),
+              newVals s.k.isMut (s.vals.map fun v => v * ((1 : Rat) / 1000 / ts)), s.k.dts, s.k.isMut,
+              s.k.cls, if s.k.cls = .hc then true else s.k.validated⟩
+  | .timeRate =>
+    match stepsPerHour s with
+    | none => .error .attr
+    | some ts =>
+      match (if s.hd.dtype = 1 then some (3, 6) else if s.hd.dtype = 2 then some (4, 7) else none) with
+      | none => .error .value
+      | some (dt, u) =>
+        pure ⟨dupHdr s (some u) none none (some dt),
+              newVals s.k.isMut (s.vals.map fun v => v / ((1 : Rat) / 1000 / ts)), s.k.dts, s.k.isMut,
+              s.k.cls, if s.k.cls = .hc then true else s.k.validated⟩
 
 /-- Run a deriving operation: the source cells are only read. -/
 def derive (m : Mode) (h : Heap) (c : Ref) (op : DOp) : Except Err (Heap × Ref) :=
@@ -493,9 +633,13 @@ inductive MOp
   | convSi
   | setValues (v : List Rat)
   | setItem (i : Int) (x : Rat)
-  | metaSet (k : Nat) (v : MV)
-  | metaReplace (m : List (Nat × MV))
+  | metaSet (k : Nat) (v : OV)
+  | metaReplace (m : List (Nat × OV))
   | cullInplace (ts : Nat)
+  /-- `coll.header.metadata[k].append(x)`: a nested list edited in place -/
+  | metaAppend (k : Nat) (x : MV)
+  /-- `coll.values = lst` with a list object the caller holds -/
+  | setValuesRef (r : Ref)
 deriving Repr
 
 /-- Replace the values of `c` by a new list cell and set the header's unit in place. -/
@@ -504,27 +648,38 @@ def convertTo (h : Heap) (c : Ref) (s : Src) (u : Nat) : Heap :=
   let h2 := h1.write c (.coll { s.k with vals := rv })
   h2.write s.k.hdr (.hdr { s.hd with unit := u })
 
+/-- `values = v`: checks, then `self._values = list(v)`. -/
+def setVals (h : Heap) (c : Ref) (s : Src) (v : List Rat) : Except Err Heap :=
+  if ¬ s.k.isMut then .error .attr
+  else if ¬ checkVals s.k.cls s.k.dts v.length then .error .assert
+  else
+    let p := h.alloc (.vals v false)
+    pure (p.1.write c (.coll { s.k with vals := p.2 }))
+
 def mutate (m : Mode) (h : Heap) (c : Ref) (op : MOp) : Except Err Heap := do
   let s ← src h c
   match op with
   | .convUnit u =>
     if ¬ s.k.isMut ∧ m = .fixed then .error .attr
+    else if ¬ convOk s.hd.dtype then .error .type
     else if ¬ unitOk s.hd.dtype u ∨ ¬ unitOk s.hd.dtype s.hd.unit then .error .value
     else pure (convertTo h c s u)
   | .convIp =>
     if ¬ s.k.isMut ∧ m = .fixed then .error .attr
+    else if ¬ convOk s.hd.dtype then .error .type
     else if ¬ unitOk s.hd.dtype s.hd.unit then .error .value
     else pure (convertTo h c s (ipUnit s.hd.unit))
   | .convSi =>
     if ¬ s.k.isMut ∧ m = .fixed then .error .attr
+    else if ¬ convOk s.hd.dtype then .error .type
     else if ¬ unitOk s.hd.dtype s.hd.unit then .error .value
     else pure (convertTo h c s (siUnit s.hd.unit))
-  | .setValues v =>
+  | .setValues v => setVals h c s v
+  | .setValuesRef r =>
     if ¬ s.k.isMut then .error .attr
-    else if ¬ checkVals s.k.cls s.k.dts v.length then .error .assert
-    else
-      let (h1, rv) := h.alloc (.vals v false)
-      pure (h1.write c (.coll { s.k with vals := rv }))
+    else match getVals h r with
+      | some (v, _) => setVals h c s v
+      | none => .error .type
   | .setItem i x =>
     if ¬ s.k.isMut then .error .attr
     else
@@ -534,11 +689,25 @@ def mutate (m : Mode) (h : Heap) (c : Ref) (op : MOp) : Except Err Heap := do
       else pure (h.write s.k.vals (.vals (s.vals.set j.toNat x) s.tuple))
   | .metaSet k v =>
     -- `coll.header.metadata[k] = v` — the dict is edited in place, also for immutable collections
-    pure (h.write s.hd.md (.md (LbHeap.metaSet s.md k v)))
+    match v with
+    | .lst l =>
+      let p := h.alloc (.mlist l)
+      pure (p.1.write s.hd.md (.md (LbHeap.metaSet s.rmd k (.lst p.2))))
+    | .tok t => pure (h.write s.hd.md (.md (LbHeap.metaSet s.rmd k (.tok t))))
+    | .bad => .error .type
   | .metaReplace nm =>
-    -- `coll.header.metadata = {...}`
-    let (h1, rm) := h.alloc (.md nm)
-    pure (h1.write s.k.hdr (.hdr { s.hd with md := rm }))
+    -- `coll.header.metadata = {...}` (the new dict and its nested lists are new objects)
+    let p := allocMd h nm
+    let pm := p.1.alloc (.md p.2)
+    pure (pm.1.write s.k.hdr (.hdr { s.hd with md := pm.2 }))
+  | .metaAppend k x =>
+    match s.rmd.find? (·.1 = k) with
+    | none => .error .key
+    | some (_, .tok _) => .error .attr
+    | some (_, .lst r) =>
+      match h.cells r with
+      | some (.mlist l) => pure (h.write r (.mlist (l ++ [x])))
+      | _ => .error .type
   | .cullInplace ts =>
     if ¬ isHourly s.k.cls then .error .attr
     else if ¬ s.k.isMut then .error .attr
@@ -591,8 +760,58 @@ def windrose (m : Mode) (h : Heap) (d a : Ref) : Except Err (Heap × Ref × Ref)
 /-! ### Building a source collection (every cell new) -/
 
 def build (h : Heap) (cls : Cls) (isMut validated : Bool) (dtype unit : Nat) (ap : List Nat)
-    (md : List (Nat × MV)) (dts : List Nat) (vals : List Rat) : Heap × Ref :=
+    (md : List (Nat × OV)) (dts : List Nat) (vals : List Rat) : Heap × Ref :=
   mkColl h ⟨.new dtype unit (.new ap) (.new md), newVals isMut vals, dts, isMut, cls, validated⟩
+
+/-! ### Plain Python lists held by the caller -/
+
+/-- A list object the caller holds (`lst = [..]`), to be passed as an argument later. -/
+def newList (h : Heap) (v : List Rat) : Heap × Ref := h.alloc (.vals v false)
+
+/-- The caller's list `[coll, x]` for `compute_function_aligned`. -/
+def newArgs (h : Heap) (l : List Operand) : Heap × Ref := h.alloc (.args l)
+
+/-- A constructor call `Collection(header, lst, datetimes)` with a list object: `list(values)`. -/
+def buildFrom (h : Heap) (cls : Cls) (isMut validated : Bool) (dtype unit : Nat) (ap : List Nat)
+    (md : List (Nat × OV)) (dts : List Nat) (lst : Ref) : Except Err (Heap × Ref) :=
+  match getVals h lst with
+  | some (v, _) =>
+    if ¬ checkVals cls dts v.length then .error .assert
+    else .ok (build h cls isMut validated dtype unit ap md dts v)
+  | none => .error .type
+
+inductive LOp | set (i : Int) (x : Rat) | append (x : Rat)
+deriving Repr
+
+/-- The caller edits his own list in place. -/
+def mutList (h : Heap) (c : Ref) (op : LOp) : Except Err Heap :=
+  match h.cells c with
+  | some (.vals v false) =>
+    match op with
+    | .append x => .ok (h.write c (.vals (v ++ [x]) false))
+    | .set i x =>
+      let n : Int := v.length
+      let j := if i < 0 then i + n else i
+      if j < 0 ∨ j ≥ n then .error .index else .ok (h.write c (.vals (v.set j.toNat x) false))
+  | _ => .error .type
+
+/-! ### Observation of any live object -/
+
+/-- What is observed of a live object of any kind: a collection's snapshot, the content of a plain list
+    the caller holds, the items of an argument list. -/
+inductive ObsAny
+  | coll (o : Option Obs)
+  | list (v : List Rat)
+  | args (l : List Operand)
+  | none
+deriving DecidableEq, Repr
+
+def obsA (h : Heap) (c : Ref) : ObsAny :=
+  match h.cells c with
+  | some (.coll _) => .coll (obs h c)
+  | some (.vals v false) => .list v
+  | some (.args l) => .args l
+  | _ => .none
 
 /-! ### Sharing signature -/
 
@@ -603,7 +822,11 @@ def shareSig (h : Heap) (r o : Ref) : String :=
   | some fr, some fo =>
     let listCell := match getVals h fr.vals with | some (_, t) => !t | none => false
     (if fr.hdr = fo.hdr then "h" else "") ++ (if fr.md = fo.md then "m" else "") ++
-    (if fr.ap = fo.ap then "a" else "") ++ (if fr.vals = fo.vals ∧ listCell = true then "v" else "")
-  | _, _ => "?"
+    (if fr.ap = fo.ap then "a" else "") ++ (if fr.vals = fo.vals ∧ listCell = true then "v" else "") ++
+    (if fr.nested.any (fo.nested.contains ·) then "l" else "")
+  | some fr, none =>
+    -- `o` is a plain list object: is it the result's values list?
+    if fr.vals = o then "v" else ""
+  | _, _ => ""
 
 end LbHeap
